@@ -127,6 +127,11 @@ class Repo:
             ci.is_enum = True
         for st in node.body:
             if isinstance(st, (ast.FunctionDef, ast.AsyncFunctionDef)):
+                is_setter = any(isinstance(d, ast.Attribute) and d.attr in ("setter", "deleter") for d in st.decorator_list)
+                if is_setter:
+                    # @x.setter: keep the getter under the plain name, file the setter separately
+                    ci.methods[st.name + ".setter"] = st
+                    continue
                 ci.methods[st.name] = st
                 decs = []
                 for d in st.decorator_list:
